@@ -200,6 +200,7 @@ fn decode(t: &mut Tape) -> Case {
     p.scratch_base = SCRATCH_BASE;
     p.scratch_len = SCRATCH_LEN;
     p.index_gaps_permille = 200;
+    p.nop_placeholders = true;
     let mut g = gen_fn(t, &p);
     // enrich with the promised operation shapes
     let mut counter = 1000usize;
